@@ -155,18 +155,26 @@ class World:
         self.count = 0
 
     # one separately evaluated application of the verb
+    def tick(self):
+        self.count += 8            # one application costs the interpreter about that many evaluations
+        if self.count > BUDGET:
+            raise Budget()
+
     def app2(self, vid, x, y):
+        self.tick()
         self.apps.append([2, canon(x), canon(y)])
         self.k["p"] = x
         self.k["q"] = y
         return self.k(DYADS[vid][1])
 
     def app1(self, vid, x):
+        self.tick()
         self.apps.append([1, canon(x)])
         self.k["p"] = x
         return self.k(MONADS[vid][1])
 
     def pred(self, pid, x):
+        self.tick()
         self.apps.append(["p", canon(x)])
         self.k["p"] = x
         return self.k(PREDS[pid] + "(p)")
